@@ -1,4 +1,4 @@
-CONSTANTS S1 = 1 S2 = 2 S3 = 0
+CONSTANTS S1 = 1 S2 = 2 S3 = 0 TrackLast = TRUE
 SPECIFICATION Spec
 INVARIANTS TypeOK GhostOK DequeuePossible NotificationsContinue
 PROPERTIES NewlyQueuedExact EachPendingDequeuedOnce PriorityOrder OneRoundFairness AtMostOneOutstanding
